@@ -115,6 +115,17 @@ func expandNamedUUID(column *ColumnSchema, value interface{}, namedUUIDs map[str
 					m.GoMap[k] = newUUID
 				}
 			}
+		} else if keyType == TypeUUID {
+			// the delete mutator also takes a set of keys, or a single key
+			if ovsSet, ok := value.(OvsSet); ok {
+				for i, s := range ovsSet.GoSet {
+					if newUUID, ok := expandNamedUUIDAtomic(keyType, s, namedUUIDs); ok {
+						ovsSet.GoSet[i] = newUUID
+					}
+				}
+			} else if newUUID, ok := expandNamedUUIDAtomic(keyType, value, namedUUIDs); ok {
+				return newUUID
+			}
 		}
 	} else if keyType == TypeUUID {
 		if ovsSet, ok := value.(OvsSet); ok {
